@@ -69,6 +69,60 @@ Theorem C11_pickle_checker_sound :
 Proof. exact pickle_checker_sound_closed. Qed.
 Print Assumptions C11_pickle_checker_sound.
 
+(* Two kills.  A kill during the checkpoint of a sampler that writes to the resume file; a fresh process
+   resumes (outcome o1, unpickled from file src); the RESUMED sampler checkpoints to the file name it
+   holds ([holder rh src]: the pickled name, or - if resume re-assigns it - the file that was loaded);
+   a second kill during that checkpoint; a third process resumes (o2).  For EVERY writer, reader
+   configuration and holder accepted by two_crash_ok, every content and both kill points: the third
+   process finds a complete checkpoint no older than the one the second process found (that one or the
+   new one); if nothing had ever completed it starts afresh or finds the new one.  Never a failure,
+   never a silent restart. *)
+Theorem C11_two_crash_sound :
+  forall (B : Type) (bytes : payload -> list B) (decode : list B -> option payload),
+    (forall p, decode (bytes p) = Some p) ->
+    (forall p j, j < length (bytes p) -> decode (firstn j (bytes p)) = None) ->
+    decode [] = None ->
+  forall (rc : rcfg) (rh : rholder) (mk : writer) (s : scen) (new2 : payload),
+    two_crash_ok rc rh mk s new2 = true ->
+    legal (s_init s) (mk PKL (s_new s)) = true ->
+  forall c0 : cstate B,
+    ahnd (s_init s) = None -> chnd c0 = None -> (forall f, classify decode (cfs c0) f = afs (s_init s) f) ->
+  forall n1 j1 o1 src,
+    In (o1, src) (resume_src rc (classify decode (crash_exec bytes (mk PKL (s_new s)) c0 n1 j1))) ->
+  forall n2 j2 o2,
+    In o2 (resume rc (classify decode
+            (crash_exec bytes (mk (holder rh src) new2)
+               {| cfs := crash_exec bytes (mk PKL (s_new s)) c0 n1 j1; chnd := None |} n2 j2))) ->
+    match o1, o2 with
+    | Loaded pk1 _, Loaded pk _ => pk = pk1 \/ pk = new2
+    | Fresh, Fresh => True
+    | Fresh, Loaded pk _ => pk = new2
+    | _, _ => False
+    end.
+Proof. exact two_crash_sound. Qed.
+Print Assumptions C11_two_crash_sound.
+
+(* today's hand copies pass it on every scenario of both samplers, with the resumed sampler keeping the
+   pickled resume_file *)
+Theorem C11_today_hand_two :
+  c11_two_ok rc_today KeepPickled (safe_file_dump_ops true) (safe_file_dump_ops false) = true.
+Proof. exact today_hand_two. Qed.
+Print Assumptions C11_today_hand_two.
+
+(* refuted variant: a resumed sampler that keeps checkpointing to the file it was loaded from.  After a
+   resume through the .old fallback its next checkpoint moves the only good checkpoint to .old.old and
+   writes .old.temp; a kill there leaves nothing check_resume looks at: silent restart from iteration 0 *)
+Theorem C11_follow_loaded_refuted :
+  let ops1 := safe_file_dump_ops true PKL (PkP 2 (StdW WT)) in
+  let ops2 := safe_file_dump_ops true (holder FollowLoaded (Old PKL)) (PkP 3 (StdW WT)) in
+  exists i k,
+    i < length (crash_states clean2 ops1)
+    /\ In (Loaded (PkP 1 (StdW WT)) [WtP 5], Old PKL) (resume_src rc_today (view_at clean2 ops1 i))
+    /\ k < length (crash_states (closed (view_at clean2 ops1 i)) ops2)
+    /\ In Fresh (resume rc_today (view_at (closed (view_at clean2 ops1 i)) ops2 k)).
+Proof. exact follow_loaded_witness. Qed.
+Print Assumptions C11_follow_loaded_refuted.
+
 (* the hand-written copies of today's writers and reader pass every check:
    safe_file_dump with and without save_existing, on the directories of both samplers (resume
    file / .old / stale .temp each absent, torn or complete; weights clean or as a previous kill
@@ -88,16 +142,19 @@ Theorem C11_weights_before_fix_refuted :
 Proof. exact before_fix_refuted. Qed.
 Print Assumptions C11_weights_before_fix_refuted.
 
-(* residual defect of today's code (known finding): torch.load raises UnpicklingError on a model.pt
+(* defect of the reader between the two weights commits (rc_fallback_only_short; repaired in /repo by
+   "FlowProposal.resume removes a damaged weights file ... and catches UnpicklingError"; kept as a
+   regression witness): torch.load raises UnpicklingError on a model.pt
    of 1-3 bytes (shorter than the zip magic); the fallback only catches EOFError, OSError and
    RuntimeError, so with that exception class in the oracle the same kill fails the resume *)
 Theorem C11_weights_short_prefix_refuted :
   exists i, i < length (crash_states clean2 (save_weights_ops WT (WtP 6)))
-         /\ In Fail (resume rc_today_short (view_at clean2 (save_weights_ops WT (WtP 6)) i)).
+         /\ In Fail (resume rc_fallback_only_short (view_at clean2 (save_weights_ops WT (WtP 6)) i)).
 Proof. exact short_prefix_refuted. Qed.
 Print Assumptions C11_weights_short_prefix_refuted.
 
-(* residual defect of today's code (known finding): a kill inside torch.save is survived through
+(* defect of the same intermediate reader (rc_fallback_only; repaired by the same commit, regression
+   witness): a kill inside torch.save is survived through
    the fallback, but the torn model.pt stays; the NEXT save_weights rotates it over the only good
    copy, and a second kill inside that torch.save leaves no resumable checkpoint *)
 Theorem C11_weights_second_kill_refuted :
@@ -105,11 +162,20 @@ Theorem C11_weights_second_kill_refuted :
   let ops2 := save_weights_ops WT (WtP 7) in
   exists i k,
     i < length (crash_states clean2 ops1)
-    /\ (forall o, In o (resume rc_today (view_at clean2 ops1 i)) -> o = Loaded (PkP 1 (StdW WT)) [WtP 5])
+    /\ (forall o, In o (resume rc_fallback_only (view_at clean2 ops1 i)) -> o = Loaded (PkP 1 (StdW WT)) [WtP 5])
     /\ k < length (crash_states (closed (view_at clean2 ops1 i)) ops2)
-    /\ In Fail (resume rc_today (view_at (closed (view_at clean2 ops1 i)) ops2 k)).
+    /\ In Fail (resume rc_fallback_only (view_at (closed (view_at clean2 ops1 i)) ops2 k)).
 Proof. exact second_kill_refuted. Qed.
 Print Assumptions C11_weights_second_kill_refuted.
+
+(* ... and today's reader (which removes the damaged model.pt once the fallback has loaded) repairs it:
+   from EVERY directory a kill inside save_weights can leave, followed by a resume, the next
+   save_weights is crash-atomic again *)
+Theorem C11_weights_second_kill_repaired :
+  forallb (fun v1 => atomic_safe rc_today (closed (after_resume rc_today v1)) (save_weights_ops WT (WtP 7)))
+          (crash_states clean2 (save_weights_ops WT (WtP 6))) = true.
+Proof. exact second_kill_repaired. Qed.
+Print Assumptions C11_weights_second_kill_repaired.
 
 (* non-vacuity: the decoder hypotheses are satisfiable, the families are not empty, and the
    concrete semantics does what one expects on safe_file_dump(save_existing=True) *)
